@@ -30,6 +30,20 @@ type Tree struct {
 	bpr   int32
 	minTs int64
 	maxTs int64
+
+	// generator bookkeeping (not part of a stored history)
+	main      []*Node   // the main chain, main[i] at height i+1
+	reorgLeaf *Node     // -prop C19 scenario: tip of a valid branch longer than the main chain
+	trap      *trapInfo // two-checkpoints-in-one-message scenario
+}
+
+// trapInfo describes a tree with two checkpoints (heights c1 < c2, both on
+// the main chain) closer together than one headers message and a valid branch
+// that leaves the main chain right after the first one and runs past the
+// height of the second.
+type trapInfo struct {
+	c1, c2   int32
+	forkLeaf *Node
 }
 
 func newTree(p *chaincfg.Params) *Tree {
